@@ -20,8 +20,14 @@ pub fn amount_u64() -> BoxedStrategy<u64> {
         1 => any::<u64>(),
         1 => 0u64..1000,
         1 => (0u32..64, -1i64..=1).prop_map(|(k, d)| ((1u128 << k) as i128 + d as i128).clamp(0, u64::MAX as i128) as u64),
+        1 => structured_u128(64).prop_map(|v| v as u64),
     ]
     .boxed()
+}
+
+/// liquidity: uniform bit length, or bit-structured (2^n ± d, runs of ones ...): long division takes its rare paths on such operands
+pub fn liquidity_u128() -> BoxedStrategy<u128> {
+    prop_oneof![3 => bits_u128(128), 1 => structured_u128(128)].boxed()
 }
 
 pub fn any_tick() -> BoxedStrategy<i32> {
@@ -46,6 +52,7 @@ pub fn sqrt_price() -> BoxedStrategy<u128> {
         1 => (0u128..3).prop_map(|d| MAX_SQRT_PRICE - d),
         2 => any::<u128>().prop_map(move |r| MIN_SQRT_PRICE + r % (span + 1)),
         2 => (33u32..=96, any::<u128>()).prop_map(|(bits, r)| ((r >> (128 - bits)) | (1u128 << (bits - 1))).clamp(MIN_SQRT_PRICE, MAX_SQRT_PRICE)),
+        1 => structured_u128(96).prop_map(|v| v.clamp(MIN_SQRT_PRICE, MAX_SQRT_PRICE)),
     ]
     .boxed()
 }
@@ -76,3 +83,27 @@ pub fn fee_rate(max: u32) -> BoxedStrategy<u32> {
 }
 
 pub const TICK_SPACINGS: [u16; 8] = [1, 2, 8, 64, 128, 256, 32768, 32896];
+
+/// integers with bit-level structure (for code that normalises, shifts or looks at leading bits): 2^n ± d with d of any
+/// bit length, runs of ones 2^a - 2^b, an all-ones prefix followed by random bits, a single zero inside ones
+pub fn structured_u128(max_bits: u32) -> BoxedStrategy<u128> {
+    let pow = |n: u32| -> u128 { if n >= 128 { 0 } else { 1u128 << n } };
+    prop_oneof![
+        3 => (1u32..=max_bits, 0u32..=127, any::<u128>(), any::<bool>()).prop_map(move |(n, dbits, r, minus)| {
+            let dbits = dbits % n.max(1);
+            let d = if dbits == 0 { 0 } else { (r >> (128 - dbits)) | (1u128 << (dbits - 1)) };
+            let base = pow(n);
+            if minus { base.wrapping_sub(1).wrapping_sub(d.saturating_sub(1)) } else { base.wrapping_add(d) }
+        }),
+        2 => (1u32..=max_bits, 0u32..=127).prop_map(move |(a, b2)| pow(a).wrapping_sub(pow(b2 % a.max(1)))),
+        2 => (2u32..=max_bits, 1u32..=127, any::<u128>()).prop_map(move |(n, k, r)| {
+            let n = n.min(127);
+            let k = 1 + k % n;
+            let ones = (pow(k).wrapping_sub(1)) << (n - k);
+            let low = if n - k == 0 { 0 } else { r >> (128 - (n - k)) };
+            ones | low
+        }),
+        1 => (2u32..=max_bits, 0u32..=127).prop_map(move |(n, z)| (pow(n.min(127)).wrapping_sub(1)) & !(1u128 << (z % n.min(127)))),
+    ]
+    .boxed()
+}
